@@ -502,6 +502,8 @@ void check_writer_alive(int loggers_not_done, const char* when) {
   if (others_alive() >= loggers_not_done + 1) return;
   size_t pending = 0;
   for (EntryRec* e : S->entries) if (e->kind == K_WRITE && e->state == ST_HANDED && e->len > 0 && !entry_in_sink(*e)) pending++;
+  // an early exit that loses nothing and leaves nobody behind is not observable through the property
+  if (pending == 0 && loggers_not_done == 0) { probe("writer_exit_without_loss"); return; }
   fail("writer-exit", S->mode == 2 ? "empty-entry" : "before-close",
        "the appender's writer thread has exited %s although close() was not called (%zu handed-in entries unwritten, %d logging threads still working)", when, pending, loggers_not_done);
 }
@@ -587,12 +589,7 @@ void run(const Plan& p) {
     // does not depend on how far it got when close() is called
     while (others_alive() > (concurrent_close ? s.nlog : 0) && s.app.pending_size() > 0) ::usleep(100);
     for (int i = 0; i < 50 && concurrent_close && others_alive() > 1; i++) ::usleep(100);
-    if (others_alive() == 0) {
-      size_t pending = 0;
-      for (EntryRec* e : s.entries) if (e->kind == K_WRITE && e->state == ST_HANDED && e->len > 0 && !entry_in_sink(*e)) pending++;
-      if (pending > 0) check_writer_alive(0, "after all logging threads finished");
-      probe("writer_exit_without_loss");
-    }
+    if (others_alive() == 0) check_writer_alive(0, "after all logging threads finished");
   }
   // Default mix: do not call close() while the slot its stop marker will use is
   // still being recycled by the writer (reads private queue state; avoids the
